@@ -219,7 +219,7 @@ pub fn judge_conn(sc: &Scenario, obs: &Obs, res: &RunResult, opts: &JudgeOpts) -
             }
             match &plan.read {
                 ReadPlan::None => (),
-                ReadPlan::ReadToEnd | ReadPlan::Sizes { limit: None, .. } if !want.body_complete => {
+                ReadPlan::ReadToEnd | ReadPlan::OtherMethod { .. } | ReadPlan::Sizes { limit: None, .. } if !want.body_complete => {
                     // the stream ended inside the body: how much of the fragment is handed
                     // out is not pinned down, but never bytes that are not part of it
                     if got.body.len() > want.body.len() || got.body[..] != want.body[..got.body.len()] {
@@ -230,7 +230,7 @@ pub fn judge_conn(sc: &Scenario, obs: &Obs, res: &RunResult, opts: &JudgeOpts) -
                         );
                     }
                 }
-                ReadPlan::ReadToEnd | ReadPlan::Sizes { limit: None, .. } => {
+                ReadPlan::ReadToEnd | ReadPlan::OtherMethod { .. } | ReadPlan::Sizes { limit: None, .. } => {
                     if got.body != want.body {
                         let key = if got.body.len() > want.body.len() { "body-overrun" } else { "body-bytes" };
                         fail(
@@ -338,7 +338,9 @@ pub fn judge_conn(sc: &Scenario, obs: &Obs, res: &RunResult, opts: &JudgeOpts) -
                         Finish::Drop | Finish::Panic => Want {
                             status: 500,
                             id: None,
-                            body: Some(Vec::new()),
+                            // what the automatic 500 carries as a body is not pinned down
+                            // (legit-changes/G-change1 gives it a short text)
+                            body: None,
                             head,
                             interim_100: interim,
                             upgrade_rest: None,
